@@ -50,6 +50,8 @@ func main() {
 		err = dexMode(num(2), int(num(3)), int(num(4)), os.Args[5] == "big", enc)
 	case "swap": // swap <seed> <runs> <steps> <out>
 		err = swapMode(num(2), int(num(3)), int(num(4)), enc)
+	case "slash": // slash <seed> <runs> <blocks> <out>
+		err = slashMode(num(2), int(num(3)), int(num(4)), enc)
 	case "replay":
 		err = replayMode(num(2), int(num(3)), enc)
 	case "multi":
